@@ -25,12 +25,12 @@ Definition mk_st (c : config) (nw h : Z) (ac : list (Z * Z)) (vl : list Z) (bl :
   (dl : list (k2 * del_rec)) (i71 : list k2) (ub : list (k2 * ubd_rec)) (i33 : list k2) (uq : list (Z * list k2))
   (rd : list (k3 * red_rec)) (i35 i36 : list k3) (rq : list (Z * list k3)) (ui : list (Z * ukey))
   (pr : list (Z * proposal)) (dp : list (k2 * Z)) (vt : list k2) (iq aq : list (Z * Z)) (np : Z)
-  (rc : list (Z * mig_rec)) (df dt : list Z) : state :=
+  (rc : list (Z * mig_rec)) (df dt : list Z) (lk : list (k2 * Z)) : state :=
   {| cfg := c; now := nw; height := h; accts := ac; vals := unitize vl; bal := bl; start := st;
      stake := {| dels := dl; idx71 := unitize i71; ubds := ub; idx33 := unitize i33; ubdq := uq;
                  reds := rd; idx35 := unitize i35; idx36 := unitize i36; redq := rq; unbidx := ui |};
      gov := {| props := pr; deposits := dp; votes := unitize vt; inactiveq := iq; activeq := aq; next_pid := np |};
-     mig := {| recs := rc; dir_from := unitize df; dir_to := unitize dt |} |}.
+     mig := {| recs := rc; dir_from := unitize df; dir_to := unitize dt |}; locked := lk |}.
 
 (* a signature as the harness describes it: who signed, and over which (from, to) pair.
    Recovery over another digest yields an address nobody holds (-7). *)
